@@ -1,10 +1,12 @@
 """C09 - printing then parsing returns the same term, atom or clause.
 
 Theorems: coq/Props/C09.v. Correspondence, every run:
- (a) model printer (coq/Term/Print.v) vs Go String(), byte for byte, on every constant and atom;
+ (a) model printer (coq/Term/Print.v, coq/Serde/Clause.v) vs Go String(), byte for byte, on every constant and atom and on the
+     generated clauses without temporal syntax;
  (b) model lexer + term parser (coq/Serde/{Escape,Utf8,Lexer,Parse}.v) vs Go's parser on the printed
      texts and on near-miss mutants of them (accept / reject and the tree must agree), model
-     escape / unescape vs ast.Escape / ast.Unescape on arbitrary byte strings;
+     escape / unescape vs ast.Escape / ast.Unescape on arbitrary byte strings; model clause parser (coq/Serde/ClauseParse.v) vs
+     parse.Clause on the printed clauses and vs parse.Unit on clause near misses and mutants;
  (c) the Go round trip itself - parse(String(x)) structurally equal to x, constants compared after
      functional.EvalExpr - for constants, atoms, base terms with function applications (type
      expressions) and clauses with negation, (in)equalities, comparisons, transforms, temporal
@@ -681,6 +683,27 @@ def run(ck):
             clause_features["transform_chain"] += 1 if len(c["transform"]) > 1 else 0
         if c["premises"] and not c["transform"] and c["premises"][-1]["k"] in ("eq", "ineq") and c["premises"][-1]["r"][0] == "name":
             clause_features["ends_with_name"] += 1
+    clause_model = sum(1 for _, _, t in groups["clause"] if t is not None)
+    ctext_n = sum(1 for _, _, t in groups["clause_text"] if t is not None)
+    ctext_acc = sum(1 for _, o, t in groups["clause_text"] if t is not None and o["out"]["tree"] is not None)
+    clause_model_features = {"facts": 0, "neg": 0, "eq": 0, "ineq": 0, "comparison_atom": 0, "transform": 0, "transform_chain": 0,
+                             "ends_with_name": 0, "nested_application": 0}
+    for c, _, t in groups["clause"]:
+        if t is None:
+            continue
+        clause_model_features["facts"] += 1 if c["premises"] is None else 0
+        for q in c["premises"] or []:
+            if q["k"] in ("neg", "eq", "ineq"):
+                clause_model_features[q["k"]] += 1
+            if q["k"] in ("atom", "neg") and bytes.fromhex(q["atom"]["sym"]) in (b":lt", b":le", b":gt", b":ge"):
+                clause_model_features["comparison_atom"] += 1
+            if q["k"] in ("eq", "ineq") and any(x[0] == "app" and any(y[0] == "app" for y in x[2]) for x in (q["l"], q["r"])):
+                clause_model_features["nested_application"] += 1
+        if c["transform"]:
+            clause_model_features["transform"] += 1
+            clause_model_features["transform_chain"] += 1 if len(c["transform"]) > 1 else 0
+        if c["premises"] and not c["transform"] and c["premises"][-1]["k"] in ("eq", "ineq") and c["premises"][-1]["r"][0] == "name":
+            clause_model_features["ends_with_name"] += 1
     parse_acc = sum(1 for _, o, _ in groups["parse"] if "out" in o and o["out"]["tree"] is not None)
     lenient = sum(1 for _, o, _ in groups["parse"] if "out" in o and o["out"]["term_ok"] and o["out"]["tree"] is None)
     unesc_ok = sum(1 for _, o, _ in groups["unescape"] if "out" in o and o["out"].get("ok"))
@@ -689,10 +712,12 @@ def run(ck):
     cov = {"evaluations": total, "distinct_nontrivial": len(distinct),
            "rule": "Go round trip parse(String(x)) = x on generated constants (%d), atoms (%d), base terms with function applications (%d) and "
                    "clauses (%d); model printer / parser / evaluator vs Go on the same constants and atoms; model parser vs parse.Unit on %d texts "
-                   "(hand-written near misses, printed texts and random mutants of them); model unescape vs ast.Unescape on %d byte strings, model "
-                   "escape vs ast.Escape on %d; corpus %d; non-trivial = nested constant or clause; distinct by JSON text"
+                   "(hand-written near misses, printed texts and random mutants of them); clause model (printer vs Clause.String, parser vs "
+                   "parse.Clause on the printed text, model round trip) on %d of the clauses without temporal syntax; clause parser model vs "
+                   "parse.Unit on %d clause texts (near misses and mutants of printed clauses); model unescape vs ast.Unescape on %d byte "
+                   "strings, model escape vs ast.Escape on %d; corpus %d; non-trivial = nested constant or clause; distinct by JSON text"
                    % (len(groups["const"]), len(groups["atom"]), len(groups["term"]), len(groups["clause"]), len(groups["parse"]),
-                      len(groups["unescape"]), len(groups["escape"]), ncorpus),
+                      clause_model, ctext_n, len(groups["unescape"]), len(groups["escape"]), ncorpus),
            "exhaustive": not ck.quick,
            "exhaustive_scope": ("every 1-byte string (128) and byte string (256), every 2-byte string over a 20-character alphabet of quotes, "
                                 "backslash, control characters, escape letters and brackets (400 + 484 byte strings), every boundary number / float / "
@@ -701,6 +726,10 @@ def run(ck):
            if not ck.quick else "",
            "go_round_trip_failures": stats["rt_failures"], "model_disagreements": stats["model_disagreements"],
            "go_errors": stats["go_errors"], "leaf_and_shape_kinds": kinds, "clause_features": clause_features,
+           "clause_model_cases": clause_model, "clause_model_features": clause_model_features,
+           "clause_texts_judged": ctext_n, "clause_texts_accepted": ctext_acc, "clause_texts_rejected": ctext_n - ctext_acc,
+           "clause_texts_temporal_skipped": stats["clause_text_temporal_skipped"]
+           + sum(1 for _, o, t in groups["clause_text"] if t is None and "out" in o),
            "parse_texts_accepted": parse_acc, "parse_texts_rejected": len(groups["parse"]) - parse_acc,
            "parse_term_accepts_prefix_but_unit_rejects": lenient,
            "unescape_ok": unesc_ok, "unescape_error": len(groups["unescape"]) - unesc_ok, "unescape_panics_counted_as_error": unesc_panic,
@@ -708,8 +737,13 @@ def run(ck):
                        input_json("parse", texts[-1])]}
     return ck.finish(cov, assumptions=[
         "model hand-written (coq/Serde/*.v, coq/Term/*.v); tied to ast/serde.go, ast/ast.go, parse/parse.go and the generated lexer by "
-        "differential comparison only; the clause level (literals, temporal syntax, transforms) is not modelled in Coq - it is covered by "
+        "differential comparison only; the clause level is modelled (Serde/Clause.v, ClauseParse.v) for head, atoms, negated atoms, "
+        "(in)equalities, comparison atoms and transforms; temporal annotations / operators are not modelled in Coq - they are covered by "
         "the Go round trip (c) alone",
+        "parse_print_clause_partial excludes a body without transform that ends in an (in)equality with a compound constant on the right "
+        "(pair, non-empty list / map / struct); such clauses are inside the model and the correspondence check",
+        "clause texts are compared through parse.Unit (end of input required); parse.Clause stops after the final '.' - both read the same "
+        "clause from every accepted text (checked, Go against Go)",
         "strconv.FormatFloat/ParseFloat, time.Format/Parse(RFC3339), time.Duration.String/ParseDuration enter the model as per-case tables "
         "observed from Go; the theorems assume their round-trip laws (each round trip in (c) samples them)",
         "domain: lexer-valid names and predicate symbols that are not keywords, valid UTF-8 strings, finite floats, maps / structs built by "
@@ -740,11 +774,18 @@ META = {
             "int64, finite floats, times, durations, pairs, lists, maps, structs as ast.Map / ast.Struct order them) and for atoms over such "
             "constants and variables - parsing the printed text, followed by nothing or by a character outside names and numbers, with fuel "
             "2 * length + 2, returns an expression that evaluates to that constant (parse_print_const, parse_print_atom; strconv / time enter as "
-            "oracles with their round-trip laws as hypotheses). The model is tied to "
-            "the code on every run: printer, lexer + parser (also on mutated near-miss texts: accept / reject and tree), escape and unescape "
+            "oracles with their round-trip laws as hypotheses). Clause level (parse_print_clause_partial): for every clause with a head atom and "
+            "a body of atoms, negated atoms, equalities, inequalities and comparison atoms over such constants, variables and function "
+            "applications of any nesting, with let / do transforms of any number of stages, the text Clause.String writes (with the ' .' after a "
+            "trailing name constant), followed by nothing or a character that cannot continue a name, parses back with that fuel to a clause "
+            "of the same shape whose constants evaluate to the printed ones; excluded: a body without transform ending in an (in)equality "
+            "with a compound constant on the right, and temporal annotations / operators (not modelled). Refutation theorems for the pre-fix "
+            "printers (chained transform dropped, trailing name constant). The model is tied to "
+            "the code on every run: printer, lexer + parser (also on mutated near-miss texts: accept / reject and tree), escape and unescape, "
+            "and the clause printer / clause parser (printed clauses, clause near misses and mutants through parse.Unit) "
             "are compared with Go inside Coq, and the round trip parse(String(x)) = x itself is executed in Go on generated constants, atoms, "
             "type expressions and clauses with negation, comparisons, transforms, temporal annotations and operators.",
     "note": "Trusted: Coq kernel + vm_compute; hand-written model tied to the code by sampled differential comparison; strconv / time "
-            "round-trip laws assumed (sampled); clause-level syntax covered by the Go round trip only; fixes F5, F6, F15, N14, N18, N50, N53 "
+            "round-trip laws assumed (sampled); temporal clause syntax covered by the Go round trip only; fixes F5, F6, F15, N14, N18, N50, N53 "
             "applied; findings N51 (infinite operator bounds) and N52 (durations outside whole milliseconds) probed and reported as known.",
 }
